@@ -1307,3 +1307,112 @@ Proof. split; vm_compute; reflexivity. Qed.
 Example reexpansion_outside_pinned :
   expand_text_pinned xworld xenv (lit "top") [] false xraw rtext1 = Outside XExactBlock.
 Proof. vm_compute. reflexivity. Qed.
+
+(* ------------------------------------------------------------------------------------------------------------------
+   The switches of the entrances: app.expandTableFile(expandVersions=, addExactBlock=) and eups expandtable -N / --noExact
+   (Model/ExpandOpt.v).  [expand_text_opt ev ab] is the text written with expandVersions = ev and addExactBlock = ab;
+   [expand_layout_opt ev ab] the lines behind it with their indentation levels, on classified lines.
+   [is_added o]: o is one of the lines an expansion adds (the four scaffold lines, a pin).  [strip_logical false r]: the
+   written setup line r without its bracketed expression; [sz ev] the same on a written line with its level. *)
+From Eupsv Require Import Model.ExpandOpt Proofs.ExpandOpt.
+
+(* at their defaults the switches change nothing: every theorem above about expand_text / reexpand_text speaks about
+   the entrances called without them *)
+Theorem switches_at_their_defaults tf jf sf cf w e top plist force rd text :
+  expand_text_opt true true tf jf sf cf w e top plist force rd text = expand_text_gen tf jf sf cf w e top plist force rd text /\
+  reexpand_text_opt true true tf jf sf cf w e top plist force rd text = reexpand_text_gen tf jf sf cf w e top plist force rd text.
+Proof. split; [apply expand_text_opt_defaults|apply reexpand_text_opt_defaults]. Qed.
+Print Assumptions switches_at_their_defaults.
+
+(* addExactBlock off (--noExact): no line of the written table is one an expansion adds - no if (type == exact), no
+   pin, no else, no if (type != exact), no closing brace of its own - whatever expandVersions says *)
+Theorem without_the_exact_block_nothing_is_added ev jf sf cf w e top plist force rd ls lay :
+  expand_layout_opt ev false jf sf cf w e top plist force rd ls = Ok lay ->
+  Forall (fun x => is_added (snd x) = false) lay.
+Proof. apply no_exact_block. Qed.
+Print Assumptions without_the_exact_block_nothing_is_added.
+
+(* ... and what is written is the table itself: every setup line, in order, in the form subSetup gives it - with
+   expandVersions on that is [rewrite], the form of the non-exact branch of the full expansion, which carries the
+   original constraint (inexact_keeps_constraints above) - and every other line, in order, unchanged *)
+Theorem without_the_exact_block_every_line_keeps_its_form ev jf sf cf w e top plist force rd ls lay :
+  expand_layout_opt ev false jf sf cf w e top plist force rd ls = Ok lay ->
+  setups_of (map snd lay) = map (fun s => strip_logical ev (rewrite w e plist s)) (setups_in ls) /\
+  others_of (map snd lay) = others_in ls.
+Proof. intro H. split; [eapply plain_layout_setups|eapply plain_layout_others]; exact H. Qed.
+Print Assumptions without_the_exact_block_every_line_keeps_its_form.
+
+Corollary without_the_exact_block_expressions_are_kept jf sf cf w e top plist force rd ls lay :
+  expand_layout_opt true false jf sf cf w e top plist force rd ls = Ok lay ->
+  setups_of (map snd lay) = map (rewrite w e plist) (setups_in ls).
+Proof.
+  intro H. destruct (without_the_exact_block_every_line_keeps_its_form _ _ _ _ _ _ _ _ _ _ _ _ H) as [S _].
+  rewrite S. apply map_ext. intro s. apply strip_logical_true.
+Qed.
+Print Assumptions without_the_exact_block_expressions_are_kept.
+
+(* expandVersions (-N) touches nothing but the expression on the rewritten setup lines: whatever the two switches, the
+   expansion raises exactly where it raises with expandVersions on, and otherwise writes the same lines at the same
+   levels, the expression taken off every rewritten setup line *)
+Theorem expandVersions_only_takes_the_expressions_off ev ab jf sf cf w e top plist force rd ls :
+  expand_layout_opt ev ab jf sf cf w e top plist force rd ls =
+  match expand_layout_opt true ab jf sf cf w e top plist force rd ls with
+  | Ok lay => Ok (map (sz ev) lay)
+  | Err x => Err x
+  end.
+Proof. apply layout_strip. Qed.
+Print Assumptions expandVersions_only_takes_the_expressions_off.
+
+(* hence with expandVersions off and the exact block on: the exact block is the exact block of the full expansion
+   [expand_gen] - complete and sound by the theorems above -, the other lines are the same, the setup lines are those of
+   the full expansion without their expressions, and none carries an expression *)
+Theorem without_expressions_the_exact_block_is_complete jf sf cf w e top plist force rd ls lay :
+  expand_layout_opt false true jf sf cf w e top plist force rd ls = Ok lay ->
+  exists out, expand_gen jf sf cf w e top plist force rd ls = Ok out /\
+    pins_of (map snd lay) = pins_of out /\
+    others_of (map snd lay) = others_of out /\
+    setups_of (map snd lay) = map (strip_logical false) (setups_of out) /\
+    Forall (fun r => carries_expression r = false) (setups_of (map snd lay)).
+Proof.
+  rewrite layout_strip, expand_layout_opt_defaults.
+  destruct (expand_layout jf sf cf w e top plist force rd ls) as [lay0|x] eqn:L; [|discriminate].
+  intro H. inversion H; subst. exists (map snd lay0). split; [now apply layout_lines|].
+  rewrite pins_of_sz, others_of_sz, setups_of_sz. repeat split.
+  apply Forall_forall. intros r I. apply in_map_iff in I. destruct I as [r0 [E _]]. subst r. apply stripped_carries_none.
+Qed.
+Print Assumptions without_expressions_the_exact_block_is_complete.
+
+(* and it raises exactly where the full expansion raises *)
+Theorem switches_raise_where_the_full_expansion_raises ev ab jf sf cf w e top plist force rd ls x :
+  expand_layout_opt ev ab jf sf cf w e top plist force rd ls = Err x <-> expand_gen jf sf cf w e top plist force rd ls = Err x.
+Proof.
+  unfold expand_layout_opt, expand_gen. rewrite collected_any. unfold acc0.
+  destruct (collect jf sf cf w e top plist force rd _ _); split; intro H; try discriminate; inversion H; reflexivity.
+Qed.
+Print Assumptions switches_raise_where_the_full_expansion_raises.
+
+(* the hypotheses are inhabited: the table with the stale pins of an earlier build, expanded with each switch off *)
+Example stale_table_without_expressions :
+  shown_text (reexpand_text_opt false true true true true true xworld xenv (lit "top") [] false xraw stale_text)
+  = Some "if (type != exact) {
+   setupRequired(c 1.0)
+}
+envSet(FOO, bar)
+if (type == exact) {
+   setupRequired(c               -j 1.0)
+   setupRequired(a               -j 2.0)
+   setupRequired(b               -j 1.0)
+} else {
+   setupRequired(b 1.0)
+}
+envSet(BAR, foo)
+"%string.
+Proof. vm_compute. reflexivity. Qed.
+Example stale_table_without_exact_block :
+  shown_text (reexpand_text_opt true false true true true true xworld xenv (lit "top") [] false xraw stale_text)
+  = Some "setupRequired(c 1.0 [>= 1.0])
+envSet(FOO, bar)
+setupRequired(b 1.0 [>= 0.5])
+envSet(BAR, foo)
+"%string.
+Proof. vm_compute. reflexivity. Qed.
